@@ -439,6 +439,9 @@ class AsyncEventCall(AsyncBinding, EventCall):
     properties = ["C05"]
 
 
+CLASSES["ABoundEvent"].real_name = "BoundEvent"  # the async-world twins are models of the same real classes
+CLASSES["AStateMachine"].real_name = "StateMachine"
+
 # =========================================================================== C13: Event.__get__
 class AnyInstance:
     pass
